@@ -181,6 +181,42 @@ def msgnest_part(ctx, c):
                         'how': 'SC3_MODE=%s PYTHONPATH=$SC3_REPO:/verif/harness python harness/impl/c05_kscript.py <in.json with {"msgnest":[probe]}> out.json' % mode}))
 
 
+def nextdrive_part(ctx, c):
+    """routines stepped with next() from outside any clock (main thread, also through a second routine) and from inside late routines"""
+    for mode, n in (('nrt', ctx.n(24, 240)), ('rt', ctx.n(20, 120))):
+        rt = mode == 'rt'
+        prs = [K.gen_nextdrive(ctx.rng, k, rt) for k in range(n)]
+        res = ctx.impl('c05_kscript', {'nextdrive': prs, 'seed': ctx.seed}, mode=mode, timeout=900)['nextdrive_out']
+        c.evaluations += len(prs)
+        items, owner = [], []
+        nrep = 0
+        for i, (pr, o) in enumerate(zip(prs, res)):
+            if 'fatal' in o:
+                c.failures.append(Failure('correspondence', 'next()-driven routine probe crashed: %s' % o['fatal'][-400:], replay={'probe': pr}))
+                continue
+            if not o.get('done'):
+                c.count('%s:next()-driven routine not completed in time (machine load); not compared' % mode)
+                continue
+            c.count('%s:routine stepped with next() from %s' % (mode, 'the main thread%s' % (' through a second routine' if pr['wrap'] else '')
+                                                                if pr['host'] is None else 'a late routine on ' + K.clock_name(pr['host'])))
+            c.nontriv(('nextdrive', mode, json.dumps(pr, sort_keys=True)))
+            its, bad = K.nextdrive_items(pr, o, mode)
+            if bad and nrep < 2:
+                nrep += 1
+                c.failures.append(Failure('correspondence', '%s: %s. Probe: %s' % (mode.upper(), bad[0], json.dumps(pr)),
+                                          theorem='stamp_is_logical_plus_latency / stamp_outside_is_now_plus_latency', found_input=True,
+                                          replay={'probe': pr, 'observed': o, 'mode': mode, 'payload_key': 'nextdrive', 'all': bad}))
+            items.extend(its); owner.extend([i] * len(its))
+        badi, errs = fw.check_shards(ctx, 'nextdrive_' + mode, K.MSGNEST_HEADER, items, 'Eval vm_compute in bad_idx (fun b : bool => b) cases.', shard=150)
+        for e in errs:
+            c.failures.append(Failure('correspondence', 'coq evaluation of next()-driven cases failed: ' + e[:800]))
+        for b in sorted(set(owner[x] for x in badi))[:2]:
+            c.failures.append(Failure('correspondence', '%s: a bundle sent by a routine stepped with next() is not stamped logical time + latency as the stamping '
+                                      'model says. Probe: %s Observed: %s' % (mode.upper(), json.dumps(prs[b]), json.dumps(res[b])[:600]),
+                                      theorem='stamp_is_logical_plus_latency', found_input=True,
+                                      replay={'probe': prs[b], 'observed': res[b], 'mode': mode, 'payload_key': 'nextdrive'}))
+
+
 def heap_part(ctx, c):
     """equal times + later-sent earlier bundles (the queue behind the score is reshuffled): list order = (time, send order)"""
     cases = [K.gen_heap_prog(ctx.rng) for _ in range(ctx.n(16, 160))]
@@ -237,6 +273,11 @@ def correspond(ctx):
     unit_part(ctx, c)
     close_part(ctx, c)
     msgnest_part(ctx, c)
+    nextdrive_part(ctx, c)
+    # every TempoClock state-changing entry point (tempo, etempo, beats, beats_per_bar) used by a routine that keeps sending
+    T.generic_probe_part(ctx, c, 'clockseq', 'clockseq_out', K.gen_clockseq, K.clockseq_expected,
+                         (('nrt', ctx.n(32, 320)), ('rt', ctx.n(18, 120))), 'stamp_is_logical_plus_latency',
+                         'clock state changes then sends')
     heap_part(ctx, c)
     shared_part(ctx, c)
     cases, outs = T.nrt_part(ctx, c, ctx.n(150, 1500), MINE, None)
